@@ -256,7 +256,22 @@ impl Ctx {
         let id = IdCert::new_ta(v, &pki.key("k0"), &pki.signer).unwrap();
         let id_cert = Base64::from_content(&id.to_captured().into_bytes());
         let issuer = res_cert(&pki, "k0", 1);
-        let issued = vec![res_cert(&pki, "k1", 2), res_cert(&pki, "k2", 3), res_cert(&pki, "e0", 4)];
+        // (the second certificate is a very large object: 20 000 single addresses, about 190 KiB of DER - whatever an encoder does
+        // in blocks it does more than once here)
+        let mut issued = vec![res_cert(&pki, "k1", 2), res_cert(&pki, "k2", 3), res_cert(&pki, "e0", 4)];
+        issued[1] = {
+            let pk = pki.pubkey("k2");
+            let mut tbs = TbsCert::new(Serial::from(3u64), pki.pubkey("k0").to_subject_name(),
+                                       Validity::new(Time::utc(2024, 1, 1, 0, 0, 0), Time::utc(2034, 1, 1, 0, 0, 0)), None, pk, KeyUsage::Ca, Overclaim::Refuse);
+            tbs.set_basic_ca(Some(true));
+            tbs.set_authority_key_identifier(Some(pki.pubkey("k0").key_identifier()));
+            tbs.set_ca_repository(Some(rsync("rsync://repo.example/m/ca/")));
+            tbs.set_rpki_manifest(Some(rsync("rsync://repo.example/m/ca/ca.mft")));
+            let blocks: IpBlocks = (0..20_000u32).map(|i| rpki::repository::resources::IpBlock::from(
+                rpki::repository::resources::Prefix::new(std::net::Ipv4Addr::from(0x0A00_0001u32 + 2 * i), 32))).collect();
+            tbs.set_v4_resources(IpResources::blocks(blocks));
+            tbs.into_cert(&pki.signer, &pki.key("k0")).unwrap()
+        };
         let csr = rpki::ca::csr::Csr::<(), ()>::construct_rpki_ca(&pki.signer, &pki.key("k1"), &rsync("rsync://repo.example/m/ca/"),
                                                                   &rsync("rsync://repo.example/m/ca/ca.mft"), None).unwrap();
         let csr = RpkiCaCsr::decode(csr.into_bytes()).unwrap();
@@ -873,6 +888,21 @@ pub fn mutate(d: &[u8], kind: &str, pos: usize) -> Vec<u8> {
             o.extend_from_slice(&d[i..]);
             let s = String::from_utf8_lossy(&o).replace(&format!("</{}>", String::from_utf8_lossy(&name)), &format!("</x:{}>", String::from_utf8_lossy(&name)));
             s.into_bytes()
+        }
+        "ns-other" => {
+            // the root element's namespace name replaced by another one: very short, a proper prefix of the right one, the right
+            // one and a bit, empty, one of about the same length
+            let text = String::from_utf8_lossy(d).into_owned();
+            match text.find("xmlns=\"") {
+                Some(i) => {
+                    let start = i + 7;
+                    let end = start + text[start..].find('"').unwrap_or(0);
+                    let ns = &text[start..end];
+                    let with = match pos { 0 => "urn:x".to_string(), 1 => ns[..ns.len() / 2].to_string(), 2 => format!("{ns}x"), 3 => String::new(), _ => "h".repeat(ns.len()) };
+                    format!("{}{}{}", &text[..start], with, &text[end..]).into_bytes()
+                }
+                None => d.to_vec(),
+            }
         }
         "bom" => splice(d, 0, 0, [&b"\xef\xbb\xbf"[..], b"\xff\xfe", b"\n\n  ", b"\xef\xbb", b"\x00"][pos]),
         "trailing-junk" => splice(d, d.len(), d.len(), [&b"<x/>"[..], b"junk", b"<!-- c -->", b"\n\n", b"&amp;"][pos]),
